@@ -439,6 +439,26 @@ def forced_trip_cases():
                     if n % 2:
                         ths.append(T(api=rot(["ctx", "plain"], n), steps=[S()]))
                     cases.append(C(forced=True, threads=ths, oracle=list(orc)))
+    # THE CONTEXT BECOMES DONE DURING THE BODY OR INSIDE AN END CALL, the end call failing or not (seeded C14-13). In this
+    # executor the entries commit / rollback of the log are the calls made ON THE TRANSACTION OBJECT handed to
+    # transactOnConn (a second end call, which *sql.Tx answers with ErrTxDone without telling the driver, is an entry):
+    # at the start of the body, after the k-th statement, inside the k-th statement, inside Commit, inside Rollback;
+    # cancel / deadline; body nil / err / panic / goexit.
+    for dl in (False, True):
+        for fin in ("nil", "err", "panic", "goexit"):
+            for endo in ("ok", "fail", "ok+c", "fail+c"):
+                for where in ("start", "mid", "end", "in-stmt", "none"):
+                    n += 1
+                    if where == "none" and not endo.endswith("+c"):
+                        continue
+                    steps = [S(withctx=n % 2 == 0, onfail="ignore"), S(withctx=n % 3 == 0, onfail=rot(["ignore", "stop"], n))]
+                    orc = ["ok", "ok", "ok", endo]
+                    if where == "in-stmt":
+                        orc[1 + n % 2] = "ok+c"
+                    elif where != "none":
+                        steps.insert({"start": 0, "mid": 1, "end": 2}[where], S(act="cancel"))
+                    cases.append(C(forced=True, threads=[T(api=rot(["ctx", "ctx", "plain"], n), deadline=dl, steps=steps, fin=fin),
+                                                         T(steps=[S()])], oracle=orc))
     return cases
 
 
@@ -817,6 +837,12 @@ class C14(Property):
             C(threads=[T(api="cachedplain", steps=[S(act="tripbrk")], fin="goexit")]),
             C(threads=[T(steps=[S(), S()]), T(steps=[S(act="tripbrk")], fin="err")], sched=[0, 0, 1, 1, 1, 0, 0]),
             C(threads=[T(steps=[S(act="tripbrk"), S()])], oracle=["ok", "ok", "fail"]),      # ... and the commit fails
+            # the context ends during the body / inside Commit and Commit fails: still ONE end call on the transaction
+            # object (seeded C14-13; white-box executor: end calls counted on the object handed to transactOnConn)
+            C(forced=True, threads=[T(steps=[S(onfail="ignore"), S(act="cancel")])], oracle=["ok", "ok", "fail"]),
+            C(forced=True, threads=[T(deadline=True, steps=[S(act="cancel")])], oracle=["ok", "fail"]),
+            C(forced=True, threads=[T(steps=[S(withctx=False)])], oracle=["ok", "ok", "fail+c"]),
+            C(forced=True, threads=[T(deadline=True)], oracle=["ok", "fail+c"]),
             # the body panics with a runtime.Error / panic(nil) and the rollback works: reported as an error (seeded C14-12)
             C(threads=[T(fin="panic", panicval="nilptr")]),
             C(threads=[T(api="plain", steps=[S()], fin="panic", panicval="index")]),
